@@ -242,7 +242,7 @@ Definition c19_check (c : c19_case) : bool * bool :=
        && match impl, sk with
           | VOk _, Some k =>
               match view_tree (table_orc json_eqb orc) (table_rgba ftbl) (content0 cfg) (handlers_of cfg) kind doc with
-              | Ok v => skel_eqb (vskel v) k
+              | Ok v => skel_fits v k
               | _ => false
               end
           (* a view that deserialised has a layout tree: the model's layout returns one for every valid
